@@ -168,6 +168,8 @@ def gen_lib(rng, index, tier):
                         'at_open': rng.choice([1, 2, None])}      # during the parse (after la/lb were read) or after the call
         k, k2 = rng.choice([1, 2, 3, 5]), rng.choice([0, 1, 2])
         use = rng.sample(['stubs', 'twice', 'grid', 'pick', 'wf'], rng.randint(1, 3))
+        if rng.random() < 0.35:
+            use.append(rng.choice(['const', 'iter_kk']))      # a program constant / the same name as a rep iterator
         if edit and edit['file'] == 'lb.fj' and edit['at_open'] == 1:
             edit['at_open'] = 2           # lb is being opened at open #1: edit it only after it was read
         cfg = {'program': f'lib:{k}:{k2}:{"+".join(use)}',
